@@ -61,8 +61,12 @@ void DetailedPlacer::legalize(
   }
 }
 
-void DetailedPlacer::place(Circuit &circuit, const ColoquinteParameters &params,
+void DetailedPlacer::place(Circuit &circuit,
+                           const ColoquinteParameters &callerParams,
                            const std::optional<PlacementCallback> &callback) {
+  // Work on our own copy: the callback called at the end of the legalization
+  // may modify the caller's object
+  const ColoquinteParameters params = callerParams;
   legalize(circuit, params, callback);
   params.check();
   std::cout << "Detailed placement starting" << std::endl;
